@@ -215,6 +215,18 @@ pub fn plain_cases(ctx: &Ctx, spec: &FarmSpec, col: &mut Collected, w_single: us
             col.add(ctx, spec, &[decorated(&n)]);
         }
     }
+    // real text in one occurrence, whitespace-only text in another (element without children)
+    let mut cfg = plain_cfg(w_single.min(4));
+    cfg.kinds = vec![Kind::Text, Kind::Ws];
+    cfg.anames = vec![];
+    cfg.both_empty = false;
+    let sp = Space::new(cfg);
+    for i in 0..sp.len() {
+        let n = sp.get(i);
+        if data_oriented(&n, false) {
+            col.add(ctx, spec, &[decorated(&n)]);
+        }
+    }
     let alpha: Vec<Node> = {
         let mut cfg = plain_cfg(w_hist);
         cfg.kinds = vec![Kind::Text, Kind::CData];
@@ -275,11 +287,29 @@ pub fn name_cases(ctx: &Ctx, spec: &FarmSpec, col: &mut Collected, names: &[Pool
             col.add(ctx, spec, &[decorated(&el("r", &[n], vec![Item::Elem(el(n, &["k"], vec![Item::Elem(el(n, &[], vec![text()]))]))]))]);
             // as root
             col.add(ctx, spec, &[decorated(&el(n, &["k"], vec![Item::Elem(el("a", &[], vec![text()]))]))]);
+            // two occurrences with different children (each child optional), start/end and empty form
+            col.add(ctx, spec, &[decorated(&el("r", &[], vec![
+                Item::Elem(el(n, &[], vec![Item::Elem(el("a", &[], vec![text()]))])),
+                Item::Elem(el(n, &[], vec![Item::Elem(el("b", &[], vec![text()]))])),
+            ]))]);
+            col.add(ctx, spec, &[
+                decorated(&el(n, &[], vec![Item::Elem(el("a", &[], vec![text()])), Item::Elem(el("b", &["k"], vec![]))])),
+                decorated(&el(n, &[], vec![Item::Elem(el("b", &[], vec![]))])),
+            ]);
             // repeated and optional
             col.add(ctx, spec, &[decorated(&el("r", &[], vec![Item::Elem(el(n, &["k"], vec![])), Item::Elem(el(n, &[], vec![])), Item::Elem(el("a", &[], vec![]))])), decorated(&el("r", &[], vec![]))]);
         } else {
             col.add(ctx, spec, &[decorated(&el("r", &[n, "k"], vec![Item::Elem(el("a", &[n], vec![text()]))]))]);
         }
+    }
+    // names that are the join of other names with a separator: r/a<sep>b/c next to r/a/b<sep>c
+    for sep in [".", "-", "_"] {
+        let ab = format!("a{}b", sep);
+        let bc = format!("b{}c", sep);
+        col.add(ctx, spec, &[decorated(&el("r", &[], vec![
+            Item::Elem(el(&ab, &["k"], vec![Item::Elem(el("c", &["k"], vec![]))])),
+            Item::Elem(el("a", &["k"], vec![Item::Elem(el(&bc, &["k"], vec![]))])),
+        ]))]);
     }
     let snake = |s: &str| s.to_string().to_valid_key("r");
     let pascal = |s: &str| s.to_string().to_pascal_case();
